@@ -21,3 +21,61 @@ def clone(n):
     if isinstance(n, list):
         return [clone(x) for x in n]
     return n
+
+
+class _Beta(ast.NodeTransformer):
+    """`(lambda a, b: E)(x, y)` -> E[a := x, b := y];  `(f if c else g)(x)` -> `f(x) if c else g(x)`."""
+
+    def visit_Call(self, node):
+        self.generic_visit(node)
+        f = node.func
+        if isinstance(f, ast.IfExp) and not any(isinstance(a, ast.Starred) for a in node.args):
+            def call(fn):
+                return self.visit(ast.Call(func=fn, args=[clone(a) for a in node.args],
+                                           keywords=[ast.keyword(arg=k.arg, value=clone(k.value)) for k in node.keywords]))
+            return ast.copy_location(ast.IfExp(test=f.test, body=call(f.body), orelse=call(f.orelse)), node)
+        if isinstance(f, ast.Lambda):
+            a = f.args
+            if a.vararg or a.kwarg or a.kwonlyargs or a.posonlyargs or any(isinstance(x, ast.Starred) for x in node.args):
+                return node
+            params = [x.arg for x in a.args]
+            mapping = {}
+            if len(node.args) > len(params):
+                return node
+            for p_, x in zip(params, node.args):
+                mapping[p_] = x
+            for k in node.keywords:
+                if k.arg is None or k.arg not in params or k.arg in mapping:
+                    return node
+                mapping[k.arg] = k.value
+            defaults = [None] * (len(params) - len(a.defaults)) + list(a.defaults)
+            for p_, d in zip(params, defaults):
+                if p_ not in mapping:
+                    if d is None:
+                        return node
+                    mapping[p_] = d
+            body = clone(f.body)
+            # names bound inside the body (comprehension variables, inner lambdas) that also occur in an argument: keep the call
+            inner = {n.id for n in ast.walk(body) if isinstance(n, ast.Name) and isinstance(n.ctx, ast.Store)} | \
+                    {x.arg for n in ast.walk(body) if isinstance(n, ast.Lambda) for x in n.args.args}
+            used = {n.id for v in mapping.values() for n in ast.walk(v) if isinstance(n, ast.Name)}
+            if inner & used:
+                return node
+
+            class S(ast.NodeTransformer):
+                def visit_Name(self, n):
+                    if isinstance(n.ctx, ast.Load) and n.id in mapping:
+                        return clone(mapping[n.id])
+                    return n
+
+                def visit_Lambda(self, n):
+                    shadow = {x.arg for x in n.args.args}
+                    if shadow & set(mapping):
+                        return n
+                    return self.generic_visit(n)
+            return ast.copy_location(self.visit(S().visit(body)), node)
+        return node
+
+
+def beta_reduce(node):
+    return ast.fix_missing_locations(_Beta().visit(node))
